@@ -449,49 +449,39 @@ def resolveConstM (ce : CEnv) : List (ConstVal × ConstVal) → Res (Out (List (
         | .ok b => .ok ⟨a.val ++ a'.val ++ b.val, a.work ++ a'.work ++ b.work, a.used ++ a'.used ++ b.used⟩
 end
 
-/-! ### resolved definitions -/
+/-! ### what resolution stores in the AST, addressed by slot -/
 
-structure RTypedef where
-  tdAlias : Bytes
-  rootName : Bytes
-  nodes : List RNode
+/-- The resolved nodes of the type expression at a slot, in pre-order. -/
+abbrev TypeRes := Slot × List RNode
+/-- The bindings (`ConstValue.Extra`) of the identifiers of the constant value at a slot, in
+visiting order (`none`: the identifier is `true` / `false`, which gets no Extra). -/
+abbrev BindRes := Slot × List (Option Extra)
+
+/-- What resolving one definition writes into the AST. -/
+structure DefOut where
+  types : List TypeRes
+  binds : List BindRes
+  svc : List (Bytes × Option Ref)     -- Service.Reference by service name
   deriving Repr, Inhabited
 
-structure RConstant where
-  name : Bytes
-  nodes : List RNode
-  binds : List (Option Extra)
-  deriving Repr, Inhabited
+def DefOut.append (a b : DefOut) : DefOut := ⟨a.types ++ b.types, a.binds ++ b.binds, a.svc ++ b.svc⟩
 
-structure RField where
-  nodes : List RNode
-  binds : List (Option Extra)
-  deriving Repr, Inhabited
+def DefOut.concat : List DefOut → DefOut
+  | [] => ⟨[], [], []⟩
+  | a :: r => a.append (DefOut.concat r)
 
-structure RStructLike where
-  name : Bytes
-  fields : List RField
-  deriving Repr, Inhabited
+def lookupSlot {α} (s : Slot) : List (Slot × α) → Option α
+  | [] => none
+  | (s', v) :: r => if s' = s then some v else lookupSlot s r
 
-structure RFunction where
-  ret : List RNode
-  args : List (List RNode)
-  throws : List (List RNode)
-  deriving Repr, Inhabited
-
-structure RService where
-  name : Bytes
-  functions : List RFunction
-  ref : Option Ref
-  deriving Repr, Inhabited
-
+/-- A file after resolution: Name2Category, `Include.Used`, and everything resolution wrote into
+Type nodes, identifier values and services, addressed by slot. -/
 structure RFile where
   n2c : N2C
   used : List Bool
-  typedefs : List RTypedef
-  constants : List RConstant
-  structLikes : List RStructLike
-  services : List RService
+  types : List TypeRes
+  binds : List BindRes
+  svcRefs : List (Bytes × Option Ref)
   deriving Repr, Inhabited
 
 /-- Sequencing of per-item resolutions with first-error exit (`ForEach… guard(…)`). -/
@@ -516,51 +506,56 @@ def mapOutIdx {α β} (g : Nat → α → Res (Out β)) : Nat → List α → Re
       | .error e => .error e
       | .ok b => .ok ⟨a.val :: b.val, a.work ++ b.work, a.used ++ b.used⟩
 
-def resolveTypedefDef (env : Env) (td : Typedef) : Res (Out RTypedef) :=
-  match resolveType env (.typedef td.alias) 0 td.type with
+/-- ResolveType on the type expression of a slot. -/
+def resolveSlot (env : Env) (slot : Slot) (te : TypeExpr) : Res (Out DefOut) :=
+  match resolveType env slot 0 te with
   | .error e => .error e
-  | .ok o => .ok ⟨⟨td.alias, td.type.rootName, o.val⟩, o.work, o.used⟩
+  | .ok o => .ok ⟨⟨[(slot, o.val)], [], []⟩, o.work, o.used⟩
 
-def resolveConstantDef (ce : CEnv) (c : Constant) : Res (Out RConstant) :=
-  match resolveType ce.env (.const c.name) 0 c.type with
+/-- ResolveConstValue on the constant value of a slot. -/
+def resolveSlotConst (ce : CEnv) (slot : Slot) (cv : ConstVal) : Res (Out DefOut) :=
+  match resolveConst ce cv with
   | .error e => .error e
-  | .ok o =>
-    match resolveConst ce c.value with
+  | .ok b => .ok ⟨⟨[], [(slot, b.val)], []⟩, b.work, b.used⟩
+
+/-- `a` then `b` (second not attempted if the first fails). -/
+def seqOut (a : Res (Out DefOut)) (b : Res (Out DefOut)) : Res (Out DefOut) :=
+  match a with
+  | .error e => .error e
+  | .ok x =>
+    match b with
     | .error e => .error e
-    | .ok b => .ok ⟨⟨c.name, o.val, b.val⟩, o.work ++ b.work, o.used ++ b.used⟩
+    | .ok y => .ok ⟨x.val.append y.val, x.work ++ y.work, x.used ++ y.used⟩
 
-/-- resolver.ResolveStructField -/
-def resolveField (ce : CEnv) (sname : Bytes) (k : Nat) (fl : Field) : Res (Out RField) :=
-  match resolveType ce.env (.field sname k) 0 fl.type with
-  | .error e => .error e
-  | .ok o =>
-    match fl.dflt with
-    | none => .ok ⟨⟨o.val, []⟩, o.work, o.used⟩
-    | some d =>
-      match resolveConst ce d with
-      | .error e => .error e
-      | .ok b => .ok ⟨⟨o.val, b.val⟩, o.work ++ b.work, o.used ++ b.used⟩
-
-def resolveStructLikeDef (ce : CEnv) (s : StructLike) : Res (Out RStructLike) :=
-  match mapOutIdx (resolveField ce s.name) 0 s.fields with
-  | .error e => .error e
-  | .ok o => .ok ⟨⟨s.name, o.val⟩, o.work, o.used⟩
-
-/-- resolver.ResolveFunction (argument and throws defaults are not resolved by the code). -/
-def resolveFunction (env : Env) (svc : Bytes) (k : Nat) (fn : Function) : Res (Out RFunction) :=
-  let r : Res (Out (List RNode)) := match fn.ret with
-    | none => .ok ⟨[], [], []⟩
-    | some t => resolveType env (.ret svc k) 0 t
+def flatOut (r : Res (Out (List DefOut))) : Res (Out DefOut) :=
   match r with
   | .error e => .error e
-  | .ok ro =>
-    match mapOutIdx (fun a (fl : Field) => resolveType env (.arg svc k a) 0 fl.type) 0 fn.args with
-    | .error e => .error e
-    | .ok ao =>
-      match mapOutIdx (fun a (fl : Field) => resolveType env (.throw svc k a) 0 fl.type) 0 fn.throws with
-      | .error e => .error e
-      | .ok to =>
-        .ok ⟨⟨ro.val, ao.val, to.val⟩, ro.work ++ ao.work ++ to.work, ro.used ++ ao.used ++ to.used⟩
+  | .ok o => .ok ⟨DefOut.concat o.val, o.work, o.used⟩
+
+def resolveTypedefDef (env : Env) (td : Typedef) : Res (Out DefOut) :=
+  resolveSlot env (.typedef td.alias) td.type
+
+/-- `guard(r.ResolveType(v.Type)) && guard(r.ResolveConstValue(v.Value))` -/
+def resolveConstantDef (ce : CEnv) (c : Constant) : Res (Out DefOut) :=
+  seqOut (resolveSlot ce.env (.const c.name) c.type) (resolveSlotConst ce (.const c.name) c.value)
+
+/-- resolver.ResolveStructField -/
+def resolveField (ce : CEnv) (sname : Bytes) (k : Nat) (fl : Field) : Res (Out DefOut) :=
+  match fl.dflt with
+  | none => resolveSlot ce.env (.field sname k) fl.type
+  | some d => seqOut (resolveSlot ce.env (.field sname k) fl.type) (resolveSlotConst ce (.field sname k) d)
+
+def resolveStructLikeDef (ce : CEnv) (s : StructLike) : Res (Out DefOut) :=
+  flatOut (mapOutIdx (resolveField ce s.name) 0 s.fields)
+
+/-- resolver.ResolveFunction (defaults of arguments and throws are not resolved by the code). -/
+def resolveFunction (env : Env) (svc : Bytes) (k : Nat) (fn : Function) : Res (Out DefOut) :=
+  let r : Res (Out DefOut) := match fn.ret with
+    | none => .ok ⟨⟨[], [], []⟩, [], []⟩
+    | some t => resolveSlot env (.ret svc k) t
+  seqOut r
+    (seqOut (flatOut (mapOutIdx (fun a (fl : Field) => resolveSlot env (.arg svc k a) fl.type) 0 fn.args))
+            (flatOut (mapOutIdx (fun a (fl : Field) => resolveSlot env (.throw svc k a) fl.type) 0 fn.throws)))
 
 /-- resolver.ResolveBaseService -/
 def resolveBaseService (env : Env) (ext : Bytes) : Res (Out (Option Ref)) :=
@@ -575,13 +570,11 @@ def resolveBaseService (env : Env) (ext : Bytes) : Res (Out (Option Ref)) :=
     | none => .error .baseSvc
   | _ => .ok ⟨none, [], []⟩
 
-def resolveServiceDef (env : Env) (s : Service) : Res (Out RService) :=
-  match mapOutIdx (resolveFunction env s.name) 0 s.functions with
-  | .error e => .error e
-  | .ok fo =>
-    match resolveBaseService env s.extends with
-    | .error e => .error e
-    | .ok bo => .ok ⟨⟨s.name, fo.val, bo.val⟩, fo.work ++ bo.work, fo.used ++ bo.used⟩
+def resolveServiceDef (env : Env) (s : Service) : Res (Out DefOut) :=
+  seqOut (flatOut (mapOutIdx (resolveFunction env s.name) 0 s.functions))
+    (match resolveBaseService env s.extends with
+     | .error e => .error e
+     | .ok bo => .ok ⟨⟨[], [], [(s.name, bo.val)]⟩, bo.work, bo.used⟩)
 
 /-! ### ResolveTypedefs -/
 
@@ -645,53 +638,37 @@ def patchNodes (st : Store) (slot : Slot) : Nat → List RNode → List RNode
      | some c => { n with cat := c }
      | none => n) :: patchNodes st slot (k + 1) r
 
-def patchFields (st : Store) (sname : Bytes) : Nat → List RField → List RField
-  | _, [] => []
-  | k, fl :: r => { fl with nodes := patchNodes st (.field sname k) 0 fl.nodes } :: patchFields st sname (k + 1) r
-
-def patchArgs (st : Store) (mk : Nat → Slot) : Nat → List (List RNode) → List (List RNode)
-  | _, [] => []
-  | k, ns :: r => patchNodes st (mk k) 0 ns :: patchArgs st mk (k + 1) r
-
-def patchFunctions (st : Store) (svc : Bytes) : Nat → List RFunction → List RFunction
-  | _, [] => []
-  | k, fn :: r =>
-    { ret := patchNodes st (.ret svc k) 0 fn.ret
-      args := patchArgs st (fun a => .arg svc k a) 0 fn.args
-      throws := patchArgs st (fun a => .throw svc k a) 0 fn.throws } :: patchFunctions st svc (k + 1) r
-
-def patchTypedef (st : Store) (t : RTypedef) : RTypedef :=
-  { t with nodes := patchNodes st (.typedef t.tdAlias) 0 t.nodes }
-def patchConstant (st : Store) (c : RConstant) : RConstant :=
-  { c with nodes := patchNodes st (.const c.name) 0 c.nodes }
-def patchStructLike (st : Store) (s : RStructLike) : RStructLike :=
-  { s with fields := patchFields st s.name 0 s.fields }
-def patchService (st : Store) (s : RService) : RService :=
-  { s with functions := patchFunctions st s.name 0 s.functions }
+def patchTypes (st : Store) (ts : List TypeRes) : List TypeRes :=
+  ts.map fun (slot, ns) => (slot, patchNodes st slot 0 ns)
 
 /-! ### views -/
 
-def findTd (a : Bytes) : List RTypedef → Option RTypedef
+def findTypedef (a : Bytes) : List Typedef → Option Typedef
   | [] => none
-  | t :: r => if t.tdAlias = a then some t else findTd a r
+  | t :: r => if t.alias = a then some t else findTypedef a r
 
 def findEnum (n : Bytes) : List Enum → Option Enum
   | [] => none
   | e :: r => if e.name = n then some e else findEnum n r
 
-def RTypedef.root (t : RTypedef) : TdRoot :=
-  match t.nodes.head? with
-  | some nd => ⟨t.rootName, nd.cat, nd.isTypedef, nd.ref⟩
-  | none => ⟨t.rootName, .constant, false, none⟩
+/-- `td.Type` of the first typedef named `a` (GetTypedef), with what resolution stored in its
+root node so far. -/
+def tdRootOf (f : File) (types : List TypeRes) (a : Bytes) : Option TdRoot :=
+  match findTypedef a f.typedefs with
+  | none => none
+  | some td =>
+    match (lookupSlot (.typedef a) types).bind List.head? with
+    | some nd => some ⟨td.type.rootName, nd.cat, nd.isTypedef, nd.ref⟩
+    | none => some ⟨td.type.rootName, .constant, false, none⟩
 
-def mkView (n2c : Bytes → Option Cat) (tds : List RTypedef) (f : File) : FileView :=
+def mkView (n2c : Bytes → Option Cat) (types : List TypeRes) (f : File) : FileView :=
   { n2c := n2c
-    typedef := fun a => (findTd a tds).map RTypedef.root
+    typedef := tdRootOf f types
     enum := fun n => (findEnum n f.enums).map (fun e => e.values.map (·.name))
     incs := f.includes.map (·.target) }
 
 def RFile.view (f : File) (rf : RFile) : FileView :=
-  mkView (fun n => lookupB n rf.n2c) rf.typedefs f
+  mkView (fun n => lookupB n rf.n2c) rf.types f
 
 /-! ### ResolveAST -/
 
@@ -718,22 +695,22 @@ def resolveAST (views : Nat → Option FileView) (gfuel : Nat) (i : Nat) (f : Fi
     | .error e => .error e
     | .ok n2cL =>
       let env : Env := ⟨fun n => lookupB n n2cL, incs⟩
-      match mapOut (resolveTypedefDef env) f.typedefs with
+      match flatOut (mapOut (resolveTypedefDef env) f.typedefs) with
       | .error e => .error e
       | .ok tds =>
-        let cur : FileView := mkView env.n2c tds.val f
+        let cur : FileView := mkView env.n2c tds.val.types f
         let ce : CEnv := ⟨env, fun j => if j = i then some cur else views j, i, gfuel⟩
-        match mapOut (resolveConstantDef ce) f.constants with
+        match flatOut (mapOut (resolveConstantDef ce) f.constants) with
         | .error e => .error e
         | .ok cs =>
-          match mapOut (resolveStructLikeDef ce) f.structLikes with
+          match flatOut (mapOut (resolveStructLikeDef ce) f.structLikes) with
           | .error e => .error e
           | .ok ss =>
-            match mapOut (resolveServiceDef env) f.services with
+            match flatOut (mapOut (resolveServiceDef env) f.services) with
             | .error e => .error e
             | .ok svs =>
               let le : LoopEnv :=
-                { localRoot := fun a => (findTd a tds.val).map (fun t => t.root.cat)
+                { localRoot := fun a => (cur.typedef a).map (·.cat)
                   incRoot := fun k name =>
                     match incs[k]? with
                     | none => none
@@ -741,15 +718,15 @@ def resolveAST (views : Nat → Option FileView) (gfuel : Nat) (i : Nat) (f : Fi
                       match views inc.target with
                       | none => none
                       | some v => (v.typedef name).map (·.cat) }
+              let all := ((tds.val.append cs.val).append ss.val).append svs.val
               match resolveTypedefs le (tds.work ++ cs.work ++ ss.work ++ svs.work) with
               | .error e => .error e
               | .ok st =>
                 .ok { n2c := n2cL
                       used := usedFlags f.includes.length (tds.used ++ cs.used ++ ss.used ++ svs.used)
-                      typedefs := tds.val.map (patchTypedef st)
-                      constants := cs.val.map (patchConstant st)
-                      structLikes := ss.val.map (patchStructLike st)
-                      services := svs.val.map (patchService st) }
+                      types := patchTypes st all.types
+                      binds := all.binds
+                      svcRefs := all.svc }
 
 /-! ### ResolveSymbols: the recursion over includes -/
 
